@@ -10,7 +10,10 @@
   Two facts about the Rust code shape this model:
 
   * `Attributes` is a `HashMap<Kind, Value>`; here it is a record with one optional slot per kind
-    (`A`), which is the same thing with the key type made explicit.
+    (`A`), which is the same thing with the key type made explicit.  The slots are grouped into the
+    five kinds that `try_insert` lets absorb each other (`Cl`: codec, is_nil, nil, has_nil,
+    cbor_len) and the eight that only look at their own slot (`Rs`); `try_insert`'s two branches
+    ("key present" / "key new") are transcribed per kind in `insertCl` / `insertRs`.
   * `try_from_iter` parses every `#[...]` attribute into an `Attributes` of its own and then moves
     the entries of that map into the accumulated one with `for (k, v) in m.1.into_iter()`, i.e. in
     the **iteration order of a std HashMap, which is randomised per process**.  `fromAttrs` takes
@@ -88,22 +91,48 @@ inductive Err
   | indexOnlyFields
   deriving DecidableEq, Repr
 
-/-- `Attributes`: one slot per `Kind`. -/
-structure A where
+/-- the five kinds whose values absorb each other (`encode_with` / `decode_with` / `with` and their
+    satellites `is_nil`, `nil`, `has_nil`, `cbor_len`): the part of the map `try_insert` inspects
+    beyond the slot of the key being inserted. -/
+structure Cl where
   codec : Option CC := none
+  nil : Option Path := none
+  isNil : Option Path := none
+  hasNil : Bool := false
+  cborLen : Option Path := none
+  deriving DecidableEq, Repr
+
+/-- the eight kinds that only ever look at their own slot. -/
+structure Rs where
   encoding : Option Enc := none
   index : Option (Bool × Nat) := none
   indexOnly : Bool := false
   transparent : Bool := false
   typeParam : Option TP := none
-  nil : Option Path := none
-  isNil : Option Path := none
-  hasNil : Bool := false
   contextBound : Option (List String) := none
-  cborLen : Option Path := none
   tag : Option Nat := none
   skip : Bool := false
   deriving DecidableEq, Repr
+
+/-- `Attributes` = `HashMap<Kind, Value>`: one slot per `Kind`, grouped as above. -/
+structure A where
+  cl : Cl := {}
+  rs : Rs := {}
+  deriving DecidableEq, Repr
+
+def A.codec (a : A) := a.cl.codec
+def A.nil (a : A) := a.cl.nil
+def A.isNil (a : A) := a.cl.isNil
+def A.hasNil (a : A) := a.cl.hasNil
+def A.cborLen (a : A) := a.cl.cborLen
+def A.encoding (a : A) := a.rs.encoding
+def A.index (a : A) := a.rs.index
+def A.indexOnly (a : A) := a.rs.indexOnly
+def A.transparent (a : A) := a.rs.transparent
+def A.typeParam (a : A) := a.rs.typeParam
+def A.contextBound (a : A) := a.rs.contextBound
+def A.tag (a : A) := a.rs.tag
+def A.skip (a : A) := a.rs.skip
 
 def b2n (b : Bool) : Nat := if b then 1 else 0
 def o2n (o : Option α) : Nat := if o.isSome then 1 else 0
@@ -113,12 +142,9 @@ def A.len (a : A) : Nat :=
   o2n a.codec + o2n a.encoding + o2n a.index + b2n a.indexOnly + b2n a.transparent + o2n a.typeParam
   + o2n a.nil + o2n a.isNil + b2n a.hasNil + o2n a.contextBound + o2n a.cborLen + o2n a.tag + b2n a.skip
 
-def A.has (a : A) : Kind → Bool
-  | .codec => a.codec.isSome | .encoding => a.encoding.isSome | .index => a.index.isSome
-  | .indexOnly => a.indexOnly | .transparent => a.transparent | .typeParam => a.typeParam.isSome
-  | .nil => a.nil.isSome | .isNil => a.isNil.isSome | .hasNil => a.hasNil
-  | .contextBound => a.contextBound.isSome | .cborLen => a.cborLen.isSome | .tag => a.tag.isSome
-  | .skip => a.skip
+def isCluster : Kind → Bool
+  | .codec | .nil | .isNil | .hasNil | .cborLen => true
+  | _ => false
 
 /-- which kinds `try_insert` admits on which level. -/
 def allowed : Level → Kind → Bool
@@ -148,85 +174,103 @@ def TP.merge : TP → TP → Except Err TP
   | .both e d1, .dec d2 => do let d ← mergeMap d1 d2; pure (.both e d)
   | .both e1 d1, .both e2 d2 => do let e ← mergeMap e1 e2; let d ← mergeMap d1 d2; pure (.both e d)
 
-/-- the branch of `try_insert` taken when the key is already present. -/
-def insertPresent (a : A) (v : Val) : Except Err A :=
-  match v, a.codec, a.typeParam, a.contextBound with
-  | .codec (.enc e n), some (.dec d m), _, _ => .ok { a with codec := some (.both e n d m) }
-  | .codec (.dec d m), some (.enc e n), _, _ => .ok { a with codec := some (.both e n d m) }
-  | .codec _, _, _, _ => .error .duplicate
-  | .typeParam p, _, some cb, _ => do let t ← cb.merge p; pure { a with typeParam := some t }
-  | .contextBound x, _, _, some cb => .ok { a with contextBound := some (cb ++ x) }
-  | _, _, _, _ => .error .duplicate
+/-- `try_insert` on the eight independent kinds: a present key is an error, except that type
+    parameter bounds are merged and context bounds are united. -/
+def insertRs (r : Rs) : Val → Except Err Rs
+  | .encoding e => if r.encoding.isSome then .error .duplicate else .ok { r with encoding := some e }
+  | .index b i => if r.index.isSome then .error .duplicate else .ok { r with index := some (b, i) }
+  | .indexOnly => if r.indexOnly then .error .duplicate else .ok { r with indexOnly := true }
+  | .transparent => if r.transparent then .error .duplicate else .ok { r with transparent := true }
+  | .typeParam p =>
+    match r.typeParam with
+    | some cb => (match cb.merge p with
+        | .error e => .error e
+        | .ok t => .ok { r with typeParam := some t })
+    | none => .ok { r with typeParam := some p }
+  | .contextBound x =>
+    match r.contextBound with
+    | some cb => .ok { r with contextBound := some (cb ++ x) }
+    | none => .ok { r with contextBound := some x }
+  | .tag t => if r.tag.isSome then .error .duplicate else .ok { r with tag := some t }
+  | .skip => if r.skip then .error .duplicate else .ok { r with skip := true }
+  | _ => .ok r          -- (not reached: `tryInsert` sends the other five kinds to `insertCl`)
 
-/-- plain `self.1.insert(key, val)`. -/
-def A.put (a : A) : Val → A
-  | .codec c => { a with codec := some c }
-  | .encoding e => { a with encoding := some e }
-  | .index b i => { a with index := some (b, i) }
-  | .indexOnly => { a with indexOnly := true }
-  | .transparent => { a with transparent := true }
-  | .typeParam t => { a with typeParam := some t }
-  | .nil p => { a with nil := some p }
-  | .isNil p => { a with isNil := some p }
-  | .hasNil => { a with hasNil := true }
-  | .contextBound b => { a with contextBound := some b }
-  | .cborLen p => { a with cborLen := some p }
-  | .tag t => { a with tag := some t }
-  | .skip => { a with skip := true }
-
-/-- the branch of `try_insert` taken when the key is new: the codec and its satellites
-    (`is_nil`, `nil`, `has_nil`, `cbor_len`) absorb each other in whichever order they arrive. -/
-def insertNew (a : A) (v : Val) : Except Err A :=
-  match v with
+/-- `try_insert` on the codec cluster.  A present key is an error, except that `encode_with` and
+    `decode_with` combine; a new key is absorbed by, or absorbs, what is already there. -/
+def insertCl (c : Cl) : Val → Except Err Cl
   | .isNil z =>
-    match a.codec with
-    | some (.enc e n) => if n.isSome then .error .duplicate else .ok { a with codec := some (.enc e (some z)) }
-    | some (.both e n d m) => if n.isSome then .error .duplicate else .ok { a with codec := some (.both e (some z) d m) }
-    | _ => .ok (a.put v)
+    if c.isNil.isSome then .error .duplicate
+    else match c.codec with
+      | some (.enc e n) => if n.isSome then .error .duplicate else .ok { c with codec := some (.enc e (some z)) }
+      | some (.both e n d m) => if n.isSome then .error .duplicate else .ok { c with codec := some (.both e (some z) d m) }
+      | _ => .ok { c with isNil := some z }
   | .nil z =>
-    match a.codec with
-    | some (.dec d m) => if m.isSome then .error .duplicate else .ok { a with codec := some (.dec d (some z)) }
-    | some (.both e n d m) => if m.isSome then .error .duplicate else .ok { a with codec := some (.both e n d (some z)) }
-    | _ => .ok (a.put v)
+    if c.nil.isSome then .error .duplicate
+    else match c.codec with
+      | some (.dec d m) => if m.isSome then .error .duplicate else .ok { c with codec := some (.dec d (some z)) }
+      | some (.both e n d m) => if m.isSome then .error .duplicate else .ok { c with codec := some (.both e n d (some z)) }
+      | _ => .ok { c with nil := some z }
   | .hasNil =>
-    match a.codec with
-    | some (.module p b) => if b then .error .duplicate else .ok { a with codec := some (.module p true) }
-    | _ => .ok (a.put v)
+    if c.hasNil then .error .duplicate
+    else match c.codec with
+      | some (.module p b) => if b then .error .duplicate else .ok { c with codec := some (.module p true) }
+      | _ => .ok { c with hasNil := true }
+  | .cborLen p =>
+    if c.cborLen.isSome then .error .duplicate
+    else match c.codec with
+      | some cc => if cc.isModule then .error .cborLenWith else .ok { c with cborLen := some p }
+      | none => .ok { c with cborLen := some p }
   | .codec (.enc e n) =>
-    match a.isNil with
-    | some z => if n.isSome then .error .duplicate else .ok { a with isNil := none, codec := some (.enc e (some z)) }
-    | none => .ok (a.put v)
+    match c.codec with
+    | some (.dec d m) => .ok { c with codec := some (.both e n d m) }        -- key present: `encode_with` meets `decode_with`
+    | some _ => .error .duplicate
+    | none =>
+      match c.isNil with
+      | some z => if n.isSome then .error .duplicate else .ok { c with isNil := none, codec := some (.enc e (some z)) }
+      | none => .ok { c with codec := some (.enc e n) }
   | .codec (.dec d m) =>
-    match a.nil with
-    | some z => if m.isSome then .error .duplicate else .ok { a with nil := none, codec := some (.dec d (some z)) }
-    | none => .ok (a.put v)
+    match c.codec with
+    | some (.enc e n) => .ok { c with codec := some (.both e n d m) }
+    | some _ => .error .duplicate
+    | none =>
+      match c.nil with
+      | some z => if m.isSome then .error .duplicate else .ok { c with nil := none, codec := some (.dec d (some z)) }
+      | none => .ok { c with codec := some (.dec d m) }
   | .codec (.both e n d m) =>
     -- (arrives as a fresh value when the map of one attribute, where `encode_with` met `decode_with`, is merged)
-    match a.isNil, a.nil with
-    | some z, some y =>
-      if n.isSome then .error .duplicate else if m.isSome then .error .duplicate
-      else .ok { a with isNil := none, nil := none, codec := some (.both e (some z) d (some y)) }
-    | some z, none => if n.isSome then .error .duplicate else .ok { a with isNil := none, codec := some (.both e (some z) d m) }
-    | none, some y => if m.isSome then .error .duplicate else .ok { a with nil := none, codec := some (.both e n d (some y)) }
-    | none, none => .ok (a.put v)
+    match c.codec with
+    | some _ => .error .duplicate
+    | none =>
+      match c.isNil, c.nil with
+      | some z, some y =>
+        if n.isSome then .error .duplicate else if m.isSome then .error .duplicate
+        else .ok { c with isNil := none, nil := none, codec := some (.both e (some z) d (some y)) }
+      | some z, none => if n.isSome then .error .duplicate else .ok { c with isNil := none, codec := some (.both e (some z) d m) }
+      | none, some y => if m.isSome then .error .duplicate else .ok { c with nil := none, codec := some (.both e n d (some y)) }
+      | none, none => .ok { c with codec := some (.both e n d m) }
   | .codec (.module p b) =>
-    if a.hasNil then
-      if b then .error .duplicate
-      else if a.cborLen.isSome then .error .withCborLen
-      else .ok { a with hasNil := false, codec := some (.module p true) }
-    else if a.cborLen.isSome then .error .withCborLen
-    else .ok (a.put v)
-  | .cborLen _ =>
-    match a.codec with
-    | some c => if c.isModule then .error .cborLenWith else .ok (a.put v)
-    | none => .ok (a.put v)
-  | _ => .ok (a.put v)
+    match c.codec with
+    | some _ => .error .duplicate
+    | none =>
+      if c.hasNil then
+        if b then .error .duplicate
+        else if c.cborLen.isSome then .error .withCborLen
+        else .ok { c with hasNil := false, codec := some (.module p true) }
+      else if c.cborLen.isSome then .error .withCborLen
+      else .ok { c with codec := some (.module p b) }
+  | _ => .ok c          -- (not reached)
 
-/-- `Attributes::try_insert`. -/
+/-- `Attributes::try_insert`: level check, then the slot logic. -/
 def tryInsert (l : Level) (a : A) (v : Val) : Except Err A :=
   if !allowed l v.kind then .error .notSupportedOnLevel
-  else if a.has v.kind then insertPresent a v
-  else insertNew a v
+  else if isCluster v.kind then
+    match insertCl a.cl v with
+    | .error e => .error e
+    | .ok c => .ok { a with cl := c }
+  else
+    match insertRs a.rs v with
+    | .error e => .error e
+    | .ok r => .ok { a with rs := r }
 
 /-! ### parsing one attribute -/
 
